@@ -396,6 +396,11 @@ def run(rep):
              'under their names', floor=2)
     rep.rule('R18.4', 'every function attribute becomes a tagged value; '
              'fromMethod unwraps __func__ and strips self (imlevel=1)', floor=3)
+    rep.rule('R18.5', 'the verifier describes a candidate at the level it will be '
+             'called at: _verify_element decides between fromFunction(attr, imlevel=1) '
+             '(a plain function found on a class), fromMethod (a bound method) and '
+             'fromFunction(attr) (a static method found anywhere on the MRO) by the '
+             'conditions of C17 R17.3 (shared)', floor=1)
     rep.decline('none (keyword-only/positional-only parameters are not part '
                 'of the five reported fields; the rule checks they do not '
                 'shift the reported ones)')
@@ -475,3 +480,5 @@ def run(rep):
               if not bad_i else {'problems': sorted(set(bad_i))[:3]},
               construct='identity', node=f)
     methodsem.from_method(rep, mod, 'R18.4')
+    from . import verifysem
+    verifysem.verify_element(rep, repo.module('verify.py'), 'R18.5')
